@@ -331,6 +331,11 @@ class Interp:
             res = []
             self._comp(e, 0, dict(env), mod, res)
             return set(res) if isinstance(e, ast.SetComp) else res
+        if isinstance(e, ast.DictComp):
+            pairs = []
+            fake = ast.ListComp(elt=ast.Tuple(elts=[e.key, e.value], ctx=ast.Load()), generators=e.generators)
+            self._comp(fake, 0, dict(env), mod, pairs)
+            return dict(pairs)
         if isinstance(e, ast.Call):
             return self.call(e, env, mod)
         raise Undecided(f"expression `{norm(e)[:60]}`")
@@ -566,6 +571,16 @@ class Interp:
                     break
                 except _Continue:
                     continue
+            return
+        if isinstance(s, ast.Delete):
+            for tg in s.targets:
+                if isinstance(tg, ast.Subscript):
+                    base = self.ev(tg.value, env, mod)
+                    _guard(base.__delitem__, self.ev(tg.slice, env, mod))
+                elif isinstance(tg, ast.Name):
+                    env.pop(tg.id, None)
+                else:
+                    raise Undecided("del target")
             return
         if isinstance(s, ast.Break):
             raise _Break()
